@@ -346,3 +346,12 @@ pub open spec fn cands_ok(a: MzAut, p0: Partition, blk: u32, c0: u32, elems: Seq
     &&& forall|k1: int, k2: int| 0 <= k1 < sz && 0 <= k2 < sz && k1 != k2 ==> elems[k1] != elems[k2]
     &&& forall|b: u32| refinable(a, p0, b, blk, c0) && b != blk ==> exists|k: int| 0 <= k < sz && #[trigger] elems[k] == b
 }
+
+// what refine() delivers: the partition is the Myhill-Nerode equivalence of the automaton
+pub open spec fn is_nerode_partition(a: MzAut, p: Partition) -> bool {
+    &&& pt_wf(p)
+    &&& p.base.size == a.n
+    &&& refines_fin(a, p)
+    &&& congruence(a, p)
+    &&& keeps_nerode(a, p)
+}
